@@ -159,3 +159,119 @@ def restore_older_check(ctx, n):
                           "after in-place rewrites with a changed mtime the cached run does not report the content classes of the current tree",
                           payload, found_input=True)
         shutil.rmtree(base, ignore_errors=True)
+
+
+def short_read_check(ctx, n):
+    """C01 / C03 on a file system that delivers SHORT READS before EOF (9p, FUSE direct_io, network file systems): every read()
+    on a regular file returns at most `cap` bytes (shim/rdshim.c RDSHIM_SHORT).  The groups must be byte-identical and the
+    partition must equal the one of the run without the cap."""
+    core.build_fclones()
+    shim = _shim()
+    for i in range(n):
+        rng = ctx.rng.fork()
+        base = os.path.join(ctx.scratch, "short%d" % i)
+        root = os.path.join(base, "r")
+        shutil.rmtree(base, ignore_errors=True)
+        os.makedirs(root)
+        size = rng.choice([5000, 70000, 140000, 300000])
+        A = treegen.content(rng.next(), size)
+        files = {"a/x1": A, "b/x2": A}
+        # same length, first difference at various offsets (beyond the first short read, in the last buffer, in the last byte)
+        for k, off in enumerate([size - 1, size // 2 + 7, min(size - 1, 65536 + 11), max(0, size - 4096 - 3)]):
+            b = bytearray(A)
+            b[off] ^= 0x10 + k
+            files["c/y%d" % k] = bytes(b)
+        for nm, d in files.items():
+            p = os.path.join(root, nm)
+            os.makedirs(os.path.dirname(p), exist_ok=True)
+            with open(p, "wb") as f:
+                f.write(d)
+        cap = rng.choice([1000, 4095, 4096, 65512, 65536, 100000])
+        opts = rng.choice([[], ["--hash-fn", "blake3"], ["--threads", "1"], ["--max-prefix-size", "1KiB"], ["--rf-over", "0"],
+                           ["--max-suffix-size", "1KiB"], ["--transform", "cat"]])
+        env0 = {"FCLONES_VERIF_DISK_KIND": rng.choice(["ssd", "hdd"])}
+        rc0, out0, err0 = treegen.fclones(["group", root, "-f", "json"] + opts, env=env0)
+        rc1, out1, err1 = treegen.fclones(["group", root, "-f", "json"] + opts, env=dict(env0, LD_PRELOAD=shim, RDSHIM_SHORT=str(cap)))
+        ctx.count()
+        ctx.distinct(("short", i, size, cap, tuple(opts)), True)
+        ctx.bump("short_read_cap", cap)
+        payload = {"scenario": "every read() on a regular file returns at most %d bytes" % cap, "size": size, "opts": opts,
+                   "files": "x1 = x2; y0..y3 differ from x1 in one byte (last byte, middle, after 64 KiB, 4 KiB before the end)",
+                   "replay": "LD_PRELOAD=%s RDSHIM_SHORT=%d fclones group %s %s" % (shim, cap, root, " ".join(opts)),
+                   "stderr": err1.decode("utf-8", "replace")[-400:]}
+        if rc0 != 0 or rc1 != 0:
+            ctx.violation({"kind": "run_failed", "dimension": "short_reads"}, "fclones group failed (rc %d / %d)" % (rc0, rc1), payload, found_input=True)
+            continue
+        _, g0 = treegen.parse_json_report(out0.decode("utf-8"))
+        _, g1 = treegen.parse_json_report(out1.decode("utf-8"))
+        payload["groups_with_short_reads"] = [[p.decode() for p in g["files"]] for g in g1]
+        for g in g1:
+            if len({hashlib.sha256(open(p, "rb").read()).hexdigest() for p in g["files"]}) > 1:
+                ctx.violation({"kind": "group_not_identical", "dimension": "short_reads"},
+                              "with short reads files of different content are reported as duplicates", payload, found_input=True)
+                break
+        if treegen.partition_key(g0) != treegen.partition_key(g1):
+            ctx.violation({"kind": "partition_differs", "dimension": "short_reads"},
+                          "the reported groups depend on how many bytes a read() returns", payload, found_input=True)
+        shutil.rmtree(base, ignore_errors=True)
+
+
+def failing_transform_cache_check(ctx, n):
+    """C01 with cache + transform: the transform program FAILS for every file in the first cached run (flag file present) and
+    works in the second; nothing a failed run produced may be served later: the second cached run is byte-sound on the
+    transform output and equals the uncached run."""
+    core.build_fclones()
+    for i in range(n):
+        rng = ctx.rng.fork()
+        base = os.path.join(ctx.scratch, "ftc%d" % i)
+        root = os.path.join(base, "r")
+        shutil.rmtree(base, ignore_errors=True)
+        os.makedirs(root)
+        flag = os.path.join(base, "broken.flag")
+        prog = os.path.join(base, "ftc_tr.sh")     # fclones probes the program by its bare name: the directory goes on PATH
+        mode = rng.choice(["exit1_none", "exit1_partial", "kill_partial"])
+        with open(prog, "w") as f:
+            f.write("#!/bin/sh\nif [ -e %s ]; then %s fi\nexec cat\n" % (
+                flag, {"exit1_none": "cat >/dev/null; exit 1;", "exit1_partial": "head -c 3; cat >/dev/null; exit 1;",
+                       "kill_partial": "head -c 3; kill -9 $$;"}[mode]))
+        os.chmod(prog, 0o755)
+        size = rng.choice([10, 5000, 70000])
+        conts = [treegen.content(rng.next(), size) for _ in range(3)]
+        names = ["a/p1", "a/p2", "b/q1", "b/q2", "c/r1"]
+        for k, nm in enumerate(names):
+            p = os.path.join(root, nm)
+            os.makedirs(os.path.dirname(p), exist_ok=True)
+            with open(p, "wb") as f:
+                f.write(conts[k // 2])
+        cache_home = os.path.join(base, "cache")
+        env0 = {"FCLONES_VERIF_DISK_KIND": "ssd", "XDG_CACHE_HOME": cache_home, "HOME": cache_home,
+                "PATH": base + ":" + os.environ.get("PATH", "")}
+        opts = ["--transform", "ftc_tr.sh"] + rng.choice([[], ["--rf-over", "0"], ["--threads", "1"]])
+        open(flag, "w").close()
+        rc1, _, err1 = treegen.fclones(["group", root, "--cache", "-f", "json"] + opts, env=env0)
+        os.remove(flag)
+        rc2, out2, err2 = treegen.fclones(["group", root, "--cache", "-f", "json"] + opts, env=env0)
+        rc3, out3, err3 = treegen.fclones(["group", root, "-f", "json"] + opts, env=env0)
+        ctx.count()
+        ctx.distinct(("ftc", i, mode, size, tuple(opts[2:])), True)
+        ctx.bump("failing_transform_then_cached", mode)
+        payload = {"scenario": "run 1: --cache, transform fails for every file (%s); run 2: --cache, transform = cat" % mode, "size": size,
+                   "opts": opts, "stderr_run2": err2.decode("utf-8", "replace")[-400:]}
+        if rc1 != 0 or rc2 != 0 or rc3 != 0:
+            ctx.violation({"kind": "run_failed", "dimension": "failing_transform_cache"}, "fclones group failed (%d %d %d)" % (rc1, rc2, rc3), payload, found_input=True)
+            continue
+        _, g2 = treegen.parse_json_report(out2.decode("utf-8"))
+        _, g3 = treegen.parse_json_report(out3.decode("utf-8"))
+        payload["cached_groups"] = [[g["len"]] + [p.decode() for p in g["files"]] for g in g2]
+        payload["uncached_groups"] = [[g["len"]] + [p.decode() for p in g["files"]] for g in g3]
+        for g in g2:
+            datas = {open(p, "rb").read() for p in g["files"]}
+            if len(datas) > 1 or any(len(d) != g["len"] for d in datas):
+                ctx.violation({"kind": "group_not_identical", "dimension": "failing_transform_cache"},
+                              "after a run in which the transform failed, the cached run groups files with different transform output / prints a wrong length",
+                              payload, found_input=True)
+                break
+        if treegen.partition_key(g2) != treegen.partition_key(g3):
+            ctx.violation({"kind": "cached_ne_uncached", "dimension": "failing_transform_cache"},
+                          "after a run in which the transform failed, `group --cache` differs from the uncached run", payload, found_input=True)
+        shutil.rmtree(base, ignore_errors=True)
